@@ -201,7 +201,12 @@ impl Slatepack {
 
 		let decryptor = match age::Decryptor::new(&self.payload[..])? {
 			age::Decryptor::Recipients(d) => d,
-			_ => unreachable!(),
+			// e.g. an age file of the passphrase kind: not something this wallet produces
+			_ => {
+				return Err(Error::SlatepackDeser(
+					"Unsupported slatepack encryption type".to_owned(),
+				));
+			}
 		};
 		let mut decrypted = vec![];
 		let mut reader = decryptor.decrypt(std::iter::once(&key as &dyn age::Identity))?;
@@ -369,7 +374,9 @@ impl Readable for SlatepackBin {
 					return Err(ser::Error::CorruptedData);
 				}
 			};
-			bytes_to_payload -= len;
+			bytes_to_payload = bytes_to_payload
+				.checked_sub(len)
+				.ok_or(ser::Error::CorruptedData)?;
 			Some(addr)
 		} else {
 			None
@@ -590,7 +597,9 @@ impl Readable for SlatepackEncMetadataBin {
 
 		// optional content flags (2)
 		let opt_flags = reader.read_u16()?;
-		bytes_remaining -= 2;
+		bytes_remaining = bytes_remaining
+			.checked_sub(2)
+			.ok_or(ser::Error::CorruptedData)?;
 
 		let sender = if opt_flags & 0x01 > 0 {
 			let addr = SlatepackAddress::read(reader)?;
@@ -601,7 +610,9 @@ impl Readable for SlatepackEncMetadataBin {
 					return Err(ser::Error::CorruptedData);
 				}
 			};
-			bytes_remaining -= len;
+			bytes_remaining = bytes_remaining
+				.checked_sub(len)
+				.ok_or(ser::Error::CorruptedData)?;
 			Some(addr)
 		} else {
 			None
@@ -611,7 +622,9 @@ impl Readable for SlatepackEncMetadataBin {
 		if opt_flags & 0x02 > 0 {
 			// number of recipients
 			let count = reader.read_u16()?;
-			bytes_remaining -= 2;
+			bytes_remaining = bytes_remaining
+				.checked_sub(2)
+				.ok_or(ser::Error::CorruptedData)?;
 			for _ in 0..count {
 				let addr = SlatepackAddress::read(reader)?;
 				let len = match addr.encoded_len() {
@@ -621,7 +634,9 @@ impl Readable for SlatepackEncMetadataBin {
 						return Err(ser::Error::CorruptedData);
 					}
 				};
-				bytes_remaining -= len;
+				bytes_remaining = bytes_remaining
+					.checked_sub(len)
+					.ok_or(ser::Error::CorruptedData)?;
 				recipients.push(addr);
 			}
 		}
